@@ -13,7 +13,7 @@ labelled streams (`gen_finding`), one known defect shape each:
                  field), nested-leaf (struct port with a nested-struct / list field in output direction), struct-wire (struct
                  wire written by field and read whole or vice versa), comp-array (list of sub-components with a struct input)
    F17 (verilog) for loop with a negative step that does not land on the bound (unsigned loop variable wraps)
-regression streams (`gen_fixed`): the shapes of defects repaired by fix: commits (F15, F16, F16b, F18, F19, F20, F21); expected clean.
+regression streams (`gen_fixed`): the shapes of defects repaired by fix: commits (F15, F16, F16b, F18, F19, F20, F21, F22); expected clean.
 """
 import math
 
@@ -252,7 +252,7 @@ class ExprGen:
       e, kind = self.expr(cw, depth - 1)
       if rng.random() < 0.5 and self.sext_ok(kind): return f'sext({e}, {w})', 'ext'
       return f'zext({e}, {w})', 'ext'
-    if rng.random() < 0.3 and self.opts.get('be') != 'yosys':      # yosys: finding F22 (cast of a compound expression loses its parentheses)
+    if rng.random() < 0.3:
       e, _ = self.nc(w, depth - 1)
       return f'Bits{w}({e})', 'other'                          # BitsN( expression of the same width )
     cw = w + rng.choice([1, 3, 8])
@@ -517,7 +517,6 @@ class DesignGen:
           ch = next(x[1] for x in c.children if x[0] == iname)
           self.child_outputs(scope, iname, idx, ch)
           cur = None                                  # child outputs are read by later blocks only
-    self.flush_blocks(c)
     # ff blocks: may read everything readable (including signals driven later)
     full = scope
     rng.shuffle(regs)
@@ -526,9 +525,6 @@ class DesignGen:
       mine, regs = regs[:k], regs[k:]
       self.render_ff(c, full, mine)
     self.classes.append(self.render_class(c, is_top))
-
-  def mark_maxval(self, scope, s):
-    pass
 
   def child_outputs(self, scope, iname, idx, ch):
     pre = f's.{iname}' if idx is None else f's.{iname}{idx_text(idx)}'
@@ -551,9 +547,9 @@ class DesignGen:
         cands = [x for x in self.struct_paths(c, scope, s.T[1])]
         if cands:
           c.lines.append(f'    {s.path} //= {rng.choice(cands)}'); self.features.add('connect-struct'); return
-      self.render_comb_target(c, scope, self.new_block(c), s); return
+      self.render_comb_target(c, scope, [], s); return
     if not self.connect_scalar(c, scope, s.path, s.T[1]):
-      self.render_comb_target(c, scope, self.new_block(c), s)
+      self.render_comb_target(c, scope, [], s)
 
   def connect_scalar(self, c, scope, path, w, allow_lambda=True):
     """drive the Bits signal `path` by one `//=` (always succeeds when allow_lambda is False)"""
@@ -606,12 +602,6 @@ class DesignGen:
     return out
 
   # -------------------------------------------------------------- blocks
-  def new_block(self, c):
-    return []
-
-  def flush_blocks(self, c):
-    pass
-
   def blk_name(self, c, kind):
     c.nblk += 1
     return f'{kind}{c.nblk}'
@@ -709,8 +699,16 @@ class DesignGen:
       eg2 = ExprGen(rng, sc2, eg.opts)
       e = eg2.expr(1, 1)[0]
       self.features.add('for-bits')
-      if rng.random() < 0.25 and self.be == 'verilog':
+      if rng.random() < 0.3 and self.be == 'verilog':
         self.features.add('for-negative-step')
+        if rng.random() < 0.6:
+          # the loop variable as a VALUE of its own width (BitsN(i), compared / concatenated), descending
+          self.features.add('for-negative-step-loopvar-value')
+          M = (w - 1).bit_length()
+          k = rng.random()
+          if k < 0.4: e = f"((Bits{M}({v}) {rng.choice(['==', '!=', '<', '>='])} {rng.randint(0, w - 1)}) {rng.choice('&|^')} {e})"
+          elif k < 0.7: e = f"(reduce_xor(Bits{M}({v})) ^ {e})"
+          else: e = f"(concat(Bits{M}({v}), {e}) {rng.choice(['==', '>'])} {rng.getrandbits(M + 1)})"
         # range(w-1, 0, -1) leaves bit 0: assign it first
         return [f'{tgt}[0] {op} {eg.expr(1, 1)[0]}', f'for {v} in range({w - 1}, 0, -1):', f'  {tgt}[{v}] {op} {e}']
       if rng.random() < 0.3 and w % 2 == 0:
@@ -806,12 +804,11 @@ FINDING_STREAMS = {
   # id -> (backends, expected violation kinds)
   F10: (('yosys',), ('multi-driver', 'undriven', 'output-mismatch')),
   F17: (('verilog',), ('loop-overrun', 'output-mismatch')),
-  F22: (('yosys',), ('output-mismatch',)),
 }
 FIXED_STREAMS = {
   # shapes of repaired defects: ordinary clean cases now
   F15: ('yosys', 'verilog'), F16: ('verilog', 'yosys'), F16B: ('verilog', 'yosys'), F18: ('verilog', 'yosys'), F19: ('yosys', 'verilog'),
-  F20: ('yosys', 'verilog'), F21: ('verilog', 'yosys'),
+  F20: ('yosys', 'verilog'), F21: ('verilog', 'yosys'), F22: ('yosys', 'verilog'),
 }
 
 def _hdr(): return ['from pymtl3 import *', '']
